@@ -40,6 +40,9 @@ def run(ctx: Ctx):
     from .common import order_index_sign_tests
 
     order_index_sign_tests(ctx, "order-index-sign")
+    from .common import generic_lints
+
+    generic_lints(ctx)
 
 
 # --------------------------------------------------------------------------- 1
